@@ -212,6 +212,23 @@ mod verif_search {
                 }
             }
         }
+        // structured grid seeds (0, 1, k!, small multiples of k! for k = 2..=10, extremes) with PINs that use every key
+        let mut sseeds: Vec<u32> = vec![0, 1, 2, u32::MAX, u32::MAX - 1, 0x8000_0000, 0x7fff_ffff];
+        let mut f: u64 = 1;
+        for k in 2..=12u64 { f *= k; for m in 1..=12u64 { for d in [0u64, 1] { let v = m * f + d; if v <= u32::MAX as u64 { sseeds.push(v as u32); } let w = (m * f).wrapping_sub(d); if w <= u32::MAX as u64 { sseeds.push(w as u32); } } } }
+        let ss = [0x11u8; 16]; let cs = [0xa5u8; 16];
+        for seed in sseeds.iter() { for pin in [1234u32, 5678, 9012, 1234567890, 2109876543] {
+            n += 1;
+            let got = calculate_hash(pin, *seed, &ss, &cs);
+            let want = ref_hash(pin, *seed, &ss, &cs);
+            if got != want { println!("REPLAY-FAIL c16_pin calculate_hash pin={} seed={} got={:?} want={:?}", pin, seed, got.map(|h| h[0]), want.map(|h| h[0])); return; }
+            let h = want.unwrap();
+            if !verify_client_pin_hash(pin, *seed, &ss, &cs, &h) { println!("REPLAY-FAIL c16_pin verify rejected the correct hash pin={} seed={}", pin, seed); return; }
+        } }
+        // the comparison covers all 20 bytes: every single-byte alteration is refused
+        { let (pin, seed) = (5678u32, 362880u32); let h = ref_hash(pin, seed, &ss, &cs).unwrap();
+          for pos in 0..20 { for mask in [0x01u8, 0x80, 0xff] { let mut bad = h; bad[pos] ^= mask; n += 1;
+              if verify_client_pin_hash(pin, seed, &ss, &cs, &bad) { println!("REPLAY-FAIL c16_pin verify accepted a hash altered in byte {} (xor {:#04x}) pin={} seed={}", pos, mask, pin, seed); return; } } } }
         println!("REPLAY-STATS c16_pin inputs={} all-ok", n);
     }
 }
